@@ -1,6 +1,6 @@
 #!/bin/sh
 # Runs every claimed quick check (ids from MANIFEST.json) and prints a summary.
-cd /verif
+cd "$(dirname "$0")"
 ids=$(python3 -c "import json; print(' '.join(c['property_id'] for c in json.load(open('MANIFEST.json'))['checks']))")
 rc=0
 for id in $ids; do
